@@ -33,6 +33,10 @@ def handle : List String → Verdict
         nontrivial := wire.length > 0, tags := [tag, "end:" ++ (if isDecode then "decode-error" else kind)],
         sig := s!"stream;{tag};{if isDecode then "decode" else kind}" }
     | _, _, _ => .badOp
+  | ["pcall", nS, wrongS, dupsS] =>
+    { predfail := if wrongS == "0" && dupsS == "0" then none else
+        some s!"{nS} callers released together: {wrongS} did not get the response to their own request (or timed out), {dupsS} call id(s) were handed out twice",
+      nontrivial := true, tags := ["parallel-calls"], sig := "pcall" }
   | ["mux", nS, wireH] =>
     match nS.toNat?, hexField wireH with
     | some n, some wire =>
